@@ -22,6 +22,7 @@ type Clause struct {
 }
 
 type LoopSpec struct {
+	Hints      []*Clause
 	Invariants []*Clause
 	Decreases  *Clause
 	// explicit extra havoc targets (rare)
@@ -34,6 +35,7 @@ type CallSpec struct { // contract a function gives for a function-typed paramet
 }
 
 type SiteSpec struct { // assumed behaviour of an uncontracted (external) call at ordinal N
+	Hints    []*Clause
 	Assumes  []*Clause
 	Modifies []string
 	Requires []*Clause
@@ -51,6 +53,8 @@ type FuncContract struct {
 	Sites    map[string]*SiteSpec
 	Lets     []LetDef
 	Skip     []string
+	RetHints []*Clause
+	EntryHints []*Clause
 	Trusted  bool // contract is assumed, body not verified (listed in evidence)
 	Pure     bool
 	Asserts  []*Clause // extra proof hints: "assert at return"...
@@ -121,7 +125,7 @@ func NewContractSet() *ContractSet {
 var clauseKeywords = map[string]bool{
 	"func": true, "pure": true, "ghost": true, "opaque": true, "axiom": true, "lemma": true,
 	"requires": true, "ensures": true, "modifies": true, "news": true, "loop": true, "calls": true,
-	"call": true, "let": true, "skip": true, "trusted": true, "decreases": true, "package": true, "end": true,
+	"call": true, "let": true, "skip": true, "return": true, "hint": true, "trusted": true, "decreases": true, "package": true, "end": true,
 }
 
 var pkgLineRe = regexp.MustCompile(`(?m)^package\s+(\w+)`)
@@ -326,6 +330,8 @@ func (cs *ContractSet) LoadContractFile(path, pkgPath string) error {
 				ls.Invariants = append(ls.Invariants, c)
 			case "decreases":
 				ls.Decreases = c
+			case "hint":
+				ls.Hints = append(ls.Hints, c)
 			default:
 				return fmt.Errorf("%s:%d: unknown loop clause %q", path, rc.line, k2)
 			}
@@ -395,9 +401,38 @@ func (cs *ContractSet) LoadContractFile(path, pkgPath string) error {
 				for _, m := range splitTop(r3) {
 					ss.Modifies = append(ss.Modifies, strings.TrimSpace(m))
 				}
+			case "hint":
+				c, err := mk("hint", r3, rc.line)
+				if err != nil {
+					return err
+				}
+				ss.Hints = append(ss.Hints, c)
 			default:
 				return fmt.Errorf("%s:%d: unknown call clause %q", path, rc.line, k2)
 			}
+		case "hint":
+			if cur == nil {
+				return fmt.Errorf("%s:%d: hint outside func", path, rc.line)
+			}
+			c, err := mk("hint", rest, rc.line)
+			if err != nil {
+				return err
+			}
+			cur.EntryHints = append(cur.EntryHints, c)
+		case "return":
+			// return hint e
+			if cur == nil {
+				return fmt.Errorf("%s:%d: return outside func", path, rc.line)
+			}
+			k2, r3 := splitWord(rest)
+			if k2 != "hint" {
+				return fmt.Errorf("%s:%d: expected 'return hint'", path, rc.line)
+			}
+			c, err := mk("hint", r3, rc.line)
+			if err != nil {
+				return err
+			}
+			cur.RetHints = append(cur.RetHints, c)
 		case "end":
 			cur, curLemma = nil, nil
 		default:
